@@ -316,7 +316,8 @@ def main(argv=None):
         for t in tags:
             hist_tags[t] = hist_tags.get(t, 0) + 1
         if prop.nontrivial(c, results[idx]):
-            distinct.add(hashlib.sha1(linesF[idx].encode()).hexdigest())
+            key = linesF[idx] if linesF[idx] != "skip" else json.dumps(prop.case_json(c), sort_keys=True, default=str)
+            distinct.add(hashlib.sha1(key.encode()).hexdigest())
 
     # ---- 5 verdict
     def write_replay(name, payload):
